@@ -41,7 +41,9 @@ f="$1"
 exit_status=0; when=after; stderr_bytes=0; transform=cat; killme=0; cut=0; propagate=0
 [ -f "$f.cfg" ] && . "$f.cfg"
 emit_err() {
-  if [ "$stderr_bytes" -gt 0 ]; then head -c "$stderr_bytes" /dev/zero | tr '\0' 'e' >&2; fi
+  # (a writer that notices when its stderr is taken away: it dies as a
+  # program writing with write(2) would)
+  if [ "$stderr_bytes" -gt 0 ]; then head -c "$stderr_bytes" /dev/zero | tr '\0' 'e' >&2 || exit 141; fi
 }
 out() {
   case "$transform" in
